@@ -198,6 +198,7 @@ type Connection struct {
 	stopCh           chan struct{}
 	state            connectionState
 	stateMut         sync.RWMutex
+	writerExited     bool // set with stateMut held once writeFrames picks up nothing further from sendCh
 	inbound          *messageExchangeSet
 	outbound         *messageExchangeSet
 	internalHandlers *handlerMap
@@ -556,8 +557,11 @@ func (c *Connection) SendSystemError(id uint32, span Span, err error) (sendErr e
 	// When sending errors, we hold the state rlock to ensure that sendCh is not closed
 	// as we are sending the frame.
 	return c.withStateRLock(func() error {
-		// Errors cannot be sent if the connection has been closed.
-		if c.state == connectionClosed {
+		// Errors cannot be sent once the connection is closed and its writer has
+		// stopped draining sendCh. While the writer is still flushing frames queued
+		// before the close (e.g. a large response to a slow reader), a request that
+		// arrives must still be refused with an error frame, not dropped.
+		if c.state == connectionClosed && c.writerExited {
 			c.log.WithFields(
 				LogField{"remotePeer", c.remotePeerInfo},
 				LogField{"id", id},
@@ -777,6 +781,10 @@ func (c *Connection) handleFrameNoRelay(frame *Frame) bool {
 // writes them to the connection.
 func (c *Connection) writeFrames(_ uint32) {
 	defer func() {
+		c.withStateLock(func() error {
+			c.writerExited = true
+			return nil
+		})
 		<-c.stopCh
 		// Drain and release any remaining frames in sendCh for best-effort
 		// reduction in leaked frames
@@ -802,6 +810,18 @@ func (c *Connection) writeFrames(_ uint32) {
 		case <-c.stopCh:
 			// If there are frames in sendCh, we want to drain them.
 			if len(c.sendCh) > 0 {
+				continue
+			}
+			// Error frames are queued with the state read lock held: take the write
+			// lock to be sure nothing slips into sendCh after this last look at it.
+			drained := false
+			c.withStateLock(func() error {
+				if drained = len(c.sendCh) == 0; drained {
+					c.writerExited = true
+				}
+				return nil
+			})
+			if !drained {
 				continue
 			}
 			// Close the network once we're no longer writing frames.
